@@ -57,9 +57,12 @@ Alts(G, W, alts, i, seeds) ==                 \* ordered choice with cut
        ELSE IF a.cut THEN Fail                \* a cut was passed: no further alternatives
        ELSE Alts(G, W, Tail(alts), i, seeds)
 
+\* the action: an explicit action builds the tuple (tag, v1, .., vn); the default action ("@default") returns the single
+\* value-carrying item as it is, or the list of them
+ActionValue(tag, vals) == IF tag = "@default" THEN (IF Len(vals) = 1 THEN vals[1] ELSE vals) ELSE <<tag>> \o vals
 \* acc = <<values so far, cut passed>>
 Alt(G, W, items, tag, i, seeds, acc) ==
-  IF items = <<>> THEN Ok(<<tag>> \o acc[1], i)
+  IF items = <<>> THEN Ok(ActionValue(tag, acc[1]), i)
   ELSE LET it == Head(items) IN
        IF it.k = "cut" THEN Alt(G, W, Tail(items), tag, i, seeds, <<acc[1], TRUE>>)
        ELSE LET x == Item(G, W, it, i, seeds) IN
